@@ -241,6 +241,13 @@ def gen_body(r, P, depth, nvars, ind, outer, addr=True):
             L_.append("%s%s := %s - -1" % (tab, w, v))
             L_.append("%suse(&%s)" % (tab, v))
             scope.append(w); mine.append(w)
+        elif c < 0.81:
+            fl = fresh("fl")                        # float subtraction of a negated operand is emitted without parentheses
+            a = r.choice(scope) if scope else "2"
+            L_.append("%s%s := float64(%s) * 0.5" % (tab, fl, a))
+            L_.append("%s%s = %s - -%s" % (tab, fl, fl, fl))
+            L_.append("%s%s -= -%s - -1.5" % (tab, fl, fl))
+            L_.append("%sprintln(%s, %s - -2.5, -(-%s))" % (tab, fl, fl, fl))
         elif c < 0.83:
             i = fresh("i")
             L_.append("%sfor %s := 0; %s < %d; %s++ {" % (tab, i, i, r.randint(1, 3), i))
@@ -395,7 +402,7 @@ def run_summary(d, js):
 
 def programs(ctx):
     r = ctx.rng("programs")
-    n = 8 if ctx.quick else 120
+    n = 6 if ctx.quick else 120
     shapes = ["many-locals-30", "many-locals-130", "many-locals-720", "many-globals"]
     if not ctx.quick:
         shapes += ["many-locals-%d" % k for k in (26, 27, 118, 119, 702, 703, 1500)] + ["many-globals"] * 6
@@ -477,7 +484,7 @@ def programs(ctx):
             blobs.append((i, bl))
     if ctx.quick:
         dep = [x for x in blobs if x[1]["pkg"] != "verifc16"]
-        keep = set(id(x) for x in r.sample(dep, min(40, len(dep))))
+        keep = set(id(x) for x in r.sample(dep, min(30, len(dep))))
         blobs = [x for x in blobs if x[1]["pkg"] == "verifc16" or id(x) in keep]
     ctx.sample(dict(kind="program", shape=shapes[0], source_head=progs[0][:600], plain=results[0].get("plain")))
     ctx.cov["programs"] = n
@@ -615,8 +622,8 @@ SOUP = [32, 32, 9, 10, 34, 34, 92, 47, 47, 42, 42, 45, 45, 43, 8, 0, 1, 97, 98, 
 
 def streams(ctx):
     r = ctx.rng("streams")
-    n_valid = 1000 if ctx.quick else 30000
-    n_soup = 300 if ctx.quick else 8000
+    n_valid = 800 if ctx.quick else 30000
+    n_soup = 250 if ctx.quick else 8000
     cases = []
     for inp, reach in FIXED:
         cases.append(dict(b=inp, cls="fixed", reach=reach, kept=1, dropped=1))
@@ -755,7 +762,7 @@ def oracle_alloc(minify, ops, outs):
 
 def allocs(ctx):
     r = ctx.rng("alloc")
-    n = 150 if ctx.quick else 3000
+    n = 120 if ctx.quick else 3000
     cases = []
     for minify in (False, True):
         cases.append(dict(minify=minify, ops=gen_history(r, minify, ("locals", 800))))
